@@ -173,7 +173,7 @@ func (e *Env) BuildGenesis(a *app.App, gs *GenesisSpec) ([]byte, *Model) {
 	var bals []banktypes.Balance
 	for _, acc := range e.Accs {
 		gaccs = append(gaccs, authtypes.NewBaseAccount(acc.Addr, acc.Priv.PubKey(), acc.Num, 0))
-		cs := sdk.NewCoins(sdk.NewInt64Coin(FeeDenom, 1_000_000_000_000_000))
+		cs := sdk.NewCoins(sdk.NewInt64Coin(FeeDenom, 1_000_000_000_000_000), sdk.NewInt64Coin(sdk.DefaultBondDenom, 5_000_000)) // a little of the bond denomination: small delegations
 		for _, d := range gs.ExtraDenoms {
 			if d == SoleDenom {
 				// a denomination with a single holder and a small supply: all of it can end up at the burn address
@@ -424,6 +424,7 @@ type BuiltTx struct {
 	Fee     sdk.Coins
 	Gas     uint64
 	Payer   sdk.AccAddress // first signer
+	Granter sdk.AccAddress // the fee_granter field, if set
 	BodyHash string        // hash of what the delivered bytes carry
 	SignBytes [][]byte     // per signature
 	// AltSignBytes: for a tampered transaction, what the same signers would have had to sign for the
@@ -459,6 +460,7 @@ type TxParams struct {
 	ChainID string
 	Fee     sdk.Coins
 	Gas     uint64
+	Granter sdk.AccAddress
 	// SignOver: if non-nil the signatures are made over these messages instead of Msgs (tampering relay:
 	// signatures collected for one message list, transaction rebuilt with another).
 	SignOver []sdk.Msg
@@ -479,6 +481,9 @@ func (e *Env) BuildTx(p TxParams) (bt *BuiltTx, err error) {
 		}
 		b.SetGasLimit(p.Gas)
 		b.SetFeeAmount(p.Fee)
+		if len(p.Granter) > 0 {
+			b.SetFeeGranter(p.Granter)
+		}
 		return b, nil
 	}
 	signMsgs := p.Msgs
@@ -501,7 +506,7 @@ func (e *Env) BuildTx(p TxParams) (bt *BuiltTx, err error) {
 	if err := sb.SetSignatures(sigs...); err != nil {
 		return nil, err
 	}
-	out := &BuiltTx{Msgs: p.Msgs, Fee: p.Fee, Gas: p.Gas}
+	out := &BuiltTx{Msgs: p.Msgs, Fee: p.Fee, Gas: p.Gas, Granter: p.Granter}
 	signedHash := msgsHash(e.Cdc, signMsgs, p.Fee, p.Gas)
 	signedShape := shapeOf(e.Cdc, signMsgs)
 	for i, ai := range p.Signers {
